@@ -88,6 +88,14 @@ def r_append(ctx, rule='R02.4'):
             ctx.check(not edgew, r_id, tag + '/arcs-are-never-rewritten', edgew[0][0] if edgew else None, edgew[0][0].loc(*edgew[0][1]) if edgew else '-',
                       'no field of an existing Edge is ever written (decision and cost stay those of the transition that created the arc)',
                       '%s rewrites %s of an existing arc: relax() / the reported path then see a (decision, cost) pair that no transition produced' % (short(edgew[0][0]) if edgew else '', M.show(edgew[0][2])[:80] if edgew else ''))
+        # an append is unconditional: every path through _branch_on (both arms) and every call of the redirect closure stores its arc — the
+        # bottom-up passes (local bounds, thresholds, frontier) look at ALL arcs, not only at those that improved a value when they were met
+        for fb_ in set(b_ for (b_, _, _) in sites):
+            pp_ = [fb_.term_point(bb_) for (b2_, bb_, _) in sites if b2_ is fb_]
+            r_ = fb_.reach([(0, 0)], avoid=pp_)
+            ctx.check(not any(p_ in r_ for p_ in ret_points(fb_)), rule, '%s/every-arc-is-stored/%s' % (tag, short(fb_)), fb_, fb_.loc(0),
+                      'every path through %s pushes its arc onto edges' % short(fb_),
+                      '%s can return without storing the arc it was given (a "useless" parallel / dominated arc skipped): local bounds and thresholds computed bottom-up miss that arc' % short(fb_))
         for n, (b, bb, E) in enumerate(sites):
             ctx.analysed_bodies.add(b.name)
             inst = '%s/%s#%d' % (tag, b.fn_name, n)
@@ -723,6 +731,11 @@ def r_relax(ctx):
             ctx.bad('R06.1', tag + '/merged-id', b, b.loc(0), 'cannot identify the merged node (the node flagged relaxed, = the recycled kept node if any, else a fresh node)')
             continue
         (rec_t, some_v, none_v) = opt_fold(midx)
+        # the node re-used as merged node is looked for among the KEPT nodes only (they stay in the layer whatever happens next); a search
+        # that also covers merged-away members (chain / the whole layer) can pick a node that the truncation then removes
+        finds_ = [x for x in M.walk(rec_t) if M.is_call(x, 'find', 'position', 'find_map', 'rfind')]
+        ctx.check(bool(finds_) and strip_iter(finds_[0][2][0]) == keep_t, 'R06.1', tag + '/recycled-searched-in-kept-slice', b, b.loc(mg[0][0]),
+                  'the kept node to re-use is searched in the kept slice only', 'the node to recycle is searched in %s, not in the kept slice only: a merged-away member can be chosen and then dropped from the layer by the truncation' % (M.show(finds_[0][2][0])[:140] if finds_ else '-'))
         ctx.check(some_v == id0(opt_payload(rec_t)) and M.is_call(none_v, 'len') and self_field(none_v[2][0], 'nodes'), 'R06.1', tag + '/merged-id', b, b.loc(mg[0][0]),
                   'the merged node is the recycled kept node when there is one, else the node about to be pushed (id = nodes.len())', 'the merged node id is %s' % M.show(midx)[:200])
         # the recycled node has the merged state; the created node carries it and is flagged relaxed
@@ -1392,6 +1405,39 @@ def r_cutset(ctx):
                   lb.loc(rev[0][0]) if rev else lb.loc(0), 'local bounds are computed over the layers in reverse order', 'local bounds are not computed bottom-up (layers.rev())')
         ok, cut, bad = M.guarded(lb, [p for p in [lb.term_point(bb) for (bb, t) in lb.calls_to('rev')]], lambda atoms, lit: any(_is_relaxed_lit(a) for a in atoms))
         ctx.check(ok, 'R08.5', tag + '/only-relaxed', lb, lb.loc(0), 'local bounds are computed for relaxed compilations', 'local bounds computed outside relaxed compilations')
+        # ... and they are not optional: in a relaxed compilation that has a cut-set, the bottom-up traversal runs on every path (closed list
+        # of exemptions: not relaxed; no cut-set — `lel` beyond the last layer / `cutset` empty). The thresholds of the cut-set nodes read
+        # value_bot as well: left at its initial MIN, theta saturates to MAX and the state is never explored again.
+        def lb_exempt(atoms, lit):
+            for a_ in atoms:
+                if a_[0] == 'cmp' and a_[3] == frozenset('<>') and _is_relaxed_lit(('cmp', a_[1], a_[2], frozenset('='))):
+                    return True         # comp_type != Relaxed
+                if a_[0] == 'in' and M.is_field(a_[1], 'comp_type', 'CompilationInput') and 'Relaxed' not in a_[2]:
+                    return True
+                if a_[0] == 'T' and M.is_call(a_[1], 'is_empty') and self_field(a_[1][2][0], 'cutset'):
+                    return True
+                if a_[0] == 'cmp' and M.contains(a_[1], lambda x: self_field(x, 'lel')) and M.contains(a_[2], lambda x: _layers_len(x)) and not (a_[3] <= frozenset('<')):
+                    return True
+                if a_[0] == 'cmp' and M.contains(a_[2], lambda x: self_field(x, 'lel')) and M.contains(a_[1], lambda x: _layers_len(x)) and not (a_[3] <= frozenset('>')):
+                    return True
+            return False
+        trav = [lb.term_point(bb) for (bb, t) in lb.calls_to('rev')]
+        cut_ = _cut_edges(lb, lb_exempt)
+        r_ = lb.reach([(0, 0)], cut_edges=cut_, avoid=trav)
+        ctx.check(bool(trav) and not any(p_ in r_ for p_ in ret_points(lb)), 'R08.5', tag + '/local-bounds-mandatory', lb, lb.loc(0),
+                  'in a relaxed compilation with a cut-set every path through _compute_local_bounds runs the bottom-up traversal',
+                  '_compute_local_bounds can return without computing value_bot in a relaxed compilation that has a cut-set (an extra early exit): cut-set bounds and thresholds then use value_bot = MIN')
+        # every finalisation step runs on every path through _finalize (an early return written at the top of a step is hoisted to this call
+        # site by the guard normalisation, so a new reason to skip a step shows up here whichever side it was written on)
+        fz_ = ctx.body(adt, '_finalize')
+        for step_ in ('_finalize_layers', '_find_best_node', '_finalize_exact', '_finalize_cutset', '_compute_local_bounds', '_compute_thresholds'):
+            cps_ = call_points(fz_, step_)
+            if not cps_:
+                continue            # merged into a neighbour / renamed beyond recognition: the step's own rules report a missing anchor
+            r_ = fz_.reach([(0, 0)], avoid=cps_)
+            rid_ = {'_compute_local_bounds': 'R08.5', '_compute_thresholds': 'R09.1', '_finalize_cutset': 'R08.2', '_finalize_layers': 'R20.a'}.get(step_, 'R02.6')
+            ctx.check(not any(p_ in r_ for p_ in ret_points(fz_)), rid_, '%s/finalize-always-runs/%s' % (tag, step_), fz_, fz_.loc(cps_[0][0]),
+                      '_finalize runs %s on every path' % step_, '_finalize can skip %s (a new early exit / guard in front of that step): what the step computes (best nodes, cut-set, local bounds, thresholds) is missing or stale for some compilations' % step_)
         # ---- R08.2 frontier admission ------------------------------------------------------------
         fb = ctx.body(adt, '_compute_frontier_cutset')
         pushes = [(c, bb, t) for c in ctx.unit(fb) for (bb, t) in c.calls_to('push') if self_field(c.origin.operand(t['args'][0], c.term_point(bb)), 'cutset')]
